@@ -15,7 +15,11 @@ namespace {
 
 struct Case {
     std::vector<uint8_t> bytes;
+    int                  deep{0}; // 0: generated tree; n > 0: parentheses nested (kDeepDepths[(n-1)/4]) deep in shape (n-1)%4
 };
+// around the widths a nesting counter can have (8 and 16 bits), and between
+const int kDeepDepths[] = {254, 255, 256, 257, 258, 300, 511, 513, 1000};
+const int kDeepCount    = int(sizeof(kDeepDepths) / sizeof(kDeepDepths[0])) * 4;
 
 // ---------------------------------------------------------------------------------------------- reference numbers
 struct Num {
@@ -73,6 +77,7 @@ struct Node {
     Op                    op{Op::Add};
     std::unique_ptr<Node> l, r;
     bool                  parens{false}; // redundant parentheses around this node
+    int                   extra{0};      // further redundant pairs around it
 };
 
 // variables available in the value tree
@@ -492,8 +497,14 @@ bool needs_parens(const Node &parent, const Node &child, bool right_side) {
     return (parent.op == Op::Pow || parent.op == Op::Rem || gp == 4);
 }
 
-void render(const Node &n, Entropy &e, std::string &o, bool force_parens = false) {
+void render(const Node &n, Entropy &e, std::string &o, bool force_parens = false, bool skip_extra = false) {
     bool par = force_parens || n.parens;
+    if (n.extra > 0 && !skip_extra) {
+        o.append(size_t(n.extra), '(');
+        render(n, e, o, force_parens, true);
+        o.append(size_t(n.extra), ')');
+        return;
+    }
     if (n.leaf) {
         if (n.lk == LeafKind::Var) {
             o += "{var:" + n.text + "}";
@@ -521,8 +532,57 @@ void render(const Node &n, Entropy &e, std::string &o, bool force_parens = false
     }
 }
 
+// Parentheses nested hundreds deep, in the four shapes that differ for a scanner which matches brackets with a counter:
+// left-nested ((((1+1)+1)+1)...), right-nested (1+(1+(1+...))), redundant pairs around a small expression, and alternating.
+std::unique_ptr<Node> deep_tree(Entropy &e, int code) {
+    const int depth = kDeepDepths[((code - 1) / 4) % (kDeepCount / 4)];
+    const int shape = (code - 1) % 4;
+    auto      leaf  = [&e]() {
+        auto n  = std::make_unique<Node>();
+        n->lk   = LeafKind::UInt;
+        n->text = std::to_string(e.below(4));
+        return n;
+    };
+    if (shape == 2) {
+        auto t   = gen_expr(e, 2);
+        t->extra = depth;
+        if (t->leaf && t->lk == LeafKind::Text) {
+            t->lk   = LeafKind::UInt;
+            t->text = "1";
+        }
+        return t;
+    }
+    std::unique_ptr<Node> t = leaf();
+    for (int i = 0; i < depth; ++i) {
+        auto n  = std::make_unique<Node>();
+        n->leaf = false;
+        n->op   = e.chance(70) ? Op::Add : Op::Sub;
+        const bool left = (shape == 0) || (shape == 3 && (i % 2) == 0);
+        if (!t->leaf) {
+            t->parens = true;
+        }
+        if (left) {
+            n->l = std::move(t);
+            n->r = leaf();
+        } else {
+            n->l = leaf();
+            n->r = std::move(t);
+        }
+        t = std::move(n);
+    }
+    return t;
+}
+
 std::unique_ptr<Node> make_tree(const Case &c, std::string &text) {
     Entropy e(c.bytes);
+    if (c.deep > 0) {
+        auto t = deep_tree(e, c.deep);
+        text.clear();
+        static const std::vector<uint8_t> no_bytes;
+        Entropy                           none(no_bytes); // no optional spaces: the text is long enough
+        render(*t, none, text);
+        return t;
+    }
     auto    t = gen_expr(e, 4);
     if (t->leaf && t->lk == LeafKind::Text) {
         t->lk   = LeafKind::UInt;
@@ -541,11 +601,14 @@ struct H {
     static const char *name() { return "C04 expression evaluation"; }
     static rc::Gen<Case> gen() {
         using namespace rc;
-        return gen::map(gen::resize(120, gen::container<std::vector<uint8_t>>(gen::arbitrary<uint8_t>())), [](std::vector<uint8_t> b) {
-            Case c;
-            c.bytes = std::move(b);
-            return c;
-        });
+        return gen::map(gen::tuple(gen::resize(120, gen::container<std::vector<uint8_t>>(gen::arbitrary<uint8_t>())), pbt::range<int>(0, 40 * kDeepCount)),
+                        [](std::tuple<std::vector<uint8_t>, int> t) {
+                            Case c;
+                            c.bytes = std::get<0>(t);
+                            // one case in forty is a deep one
+                            c.deep = (std::get<1>(t) % 40 == 0) ? 1 + (std::get<1>(t) / 40) % kDeepCount : 0;
+                            return c;
+                        });
     }
     // coverage-guided mode: the bytes are the entropy
     static bool from_fuzz(const uint8_t *d, size_t n, Case &c) {
@@ -561,9 +624,10 @@ struct H {
             hex += b;
         }
         kv.put("bytes", hex);
+        kv.put("deep", c.deep);
         std::string text;
         make_tree(c, text);
-        kv.put("expr", pbt::enc_bytes(text));
+        kv.put("expr", pbt::enc_bytes(text.size() > 400 ? text.substr(0, 200) + "..." + text.substr(text.size() - 150) : text));
         return kv.text();
     }
     static Case from_text(const std::string &t) {
@@ -573,12 +637,17 @@ struct H {
         for (size_t i = 0; i + 1 < hex.size(); i += 2) {
             c.bytes.push_back(uint8_t(strtoul(hex.substr(i, 2).c_str(), nullptr, 16)));
         }
+        c.deep = int(kv.geti("deep", 0));
         return c;
     }
 
     static void run(const Case &c, pbt::Ctx &ctx) {
         std::string text;
         auto        tree = make_tree(c, text);
+        if (c.deep > 0) {
+            static const char *sh[] = {"left-nested", "right-nested", "redundant-pairs", "alternating"};
+            ctx.label(std::string("deep-parentheses:") + sh[(c.deep - 1) % 4]);
+        }
         Flags       fl;
         Num         expect;
         try {
